@@ -153,6 +153,31 @@ class HWalker(Walker):
         return out
 
 
+    # -- value forms the base walker leaves opaque ---------------------------------------------------------------------------------
+    def sym(self, node, st):
+        if isinstance(node, ast.JoinedStr):
+            # f'{a}<{b:02x}' is '{}<{:02x}'.format(a, b)
+            fmt, args = '', []
+            for part in node.values:
+                if isinstance(part, ast.Constant) and isinstance(part.value, str):
+                    fmt += part.value.replace('{', '{{').replace('}', '}}')
+                elif isinstance(part, ast.FormattedValue):
+                    spec = ''
+                    if part.format_spec is not None:
+                        if not (len(part.format_spec.values) == 1 and isinstance(part.format_spec.values[0], ast.Constant)):
+                            return super().sym(node, st)
+                        spec = ':' + part.format_spec.values[0].value
+                    conv = {-1: '', 115: '!s', 114: '!r', 97: '!a'}.get(part.conversion, '')
+                    fmt += '{' + conv + spec + '}'
+                    args.append(self.sym(part.value, st))
+                else:
+                    return super().sym(node, st)
+            return ('mcall', C(fmt), 'format', tuple(args), ())
+        return super().sym(node, st)
+
+    def fork(self, test_node, st, done, then_body, else_body):
+        return self.fork_sym(split_isinstance(self.sym(test_node, st)), test_node, st, done, then_body, else_body)
+
     # -- conditional expressions around inlinable calls fork the path like an if statement ---------------------------------------
     def expand_calls(self, node, st, done):
         if node is not None and self.inline_mode == 'all':
@@ -162,7 +187,7 @@ class HWalker(Walker):
                 inl = lambda sub: any(isinstance(m, ast.Call) and self.inline_target(m, st) is not None for m in ast.walk(sub))
                 if not (inl(n.body) or inl(n.orelse)) or inl(n.test):
                     continue
-                test = self.sym(n.test, st)
+                test = split_isinstance(self.sym(n.test, st))
                 d = self.decide(test, st)
                 out = []
                 for pol in (True, False):
@@ -176,6 +201,22 @@ class HWalker(Walker):
                     out.extend(self.expand_calls(_replace(node, n, n.body if pol else n.orelse), s2, done))
                 return out
         return super().expand_calls(node, st, done)
+
+
+def split_isinstance(v):
+    """isinstance(x, (A, B)) as `isinstance(x, A) or isinstance(x, B)` (inside not / and / or), so that the walker's class facts,
+    which are per class, apply to tuples of classes as well."""
+    if not isinstance(v, tuple) or not v:
+        return v
+    if v[0] == 'call' and v[1] == 'isinstance' and len(v[2]) == 2 and v[2][1][0] == 'tuple' and v[2][1][1] \
+            and all(c[0] == 'name' for c in v[2][1][1]):
+        parts = tuple(('call', 'isinstance', (v[2][0], c), ()) for c in v[2][1][1])
+        return parts[0] if len(parts) == 1 else ('bool', 'or', parts)
+    if v[0] == 'un' and v[1] == 'not':
+        return ('un', 'not', split_isinstance(v[2]))
+    if v[0] == 'bool':
+        return ('bool', v[1], tuple(split_isinstance(x) for x in v[2]))
+    return v
 
 
 def _replace(root, old, new):
